@@ -258,7 +258,9 @@ def drive(lg: Logger, rng, plan, solver=None, solver_name=""):
             if not allowed:
                 continue
             k = item[1] if len(item) > 1 and item[1] is not None else rng.choice(allowed)
-            ret, exc = call(lg.lin.step, k)
+            form = rng.random() if rng is not None else 1.0
+            karg = k if form >= 0.45 else np.int64(k) if form < 0.15 else np.array(k) if form < 0.3 else np.array([k])   # the forms an agent's predict() hands over
+            ret, exc = call(lg.lin.step, karg)
             events.append(lg.event("lin_step", k, ret, exc))
     return events
 
